@@ -75,7 +75,8 @@ def run_config(cfg, res):
   if cfg['shutdown'] is not None:
     conf['MAX_UPDATES_PER_SECOND_ON_SHUTDOWN'] = cfg['shutdown']
   ns = boot.boot('carbon-cache', conf)
-  world = cachesim.World(ns, trace_files=('cache.py', 'events.py', 'writer.py'))
+  # with a rate limit the writer spends its time inside TokenBucket: the stop may land on any of its lines too
+  world = cachesim.World(ns, trace_files=('cache.py', 'events.py', 'writer.py') + (('util.py',) if cfg['updates'] != 'inf' else ()))
   r = gen.rng(cfg['seed'], 'C04', cfg['name'])
   label = cfg['strategy']
   for w in range(2 if cfg['tier'] == 'quick' else 4):
